@@ -145,6 +145,38 @@ def point_mixture_cases():
         yield {'name': 'point_isotherms|n=3|used_then_converted_to_mol', 'ok': not probs, 'detail': '; '.join(probs)[:300]}
     except Exception as exc:
         yield {'name': 'point_isotherms|n=3|fresh', 'ok': type(exc).__name__ == 'CalculationError', 'detail': f"{type(exc).__name__}: {exc}"[:200]}
+    # a component whose loading passes through a maximum (an excess isotherm): the spreading pressures at the fictitious pressures
+    # are computed here, from the measured points (closed-form integral of the piecewise-linear interpolant over ln p, Henry's
+    # law below the first point), not asked of the library
+    import math
+
+    def closed(pts, q):
+        (p0_, n0_) = pts[0]
+        if q <= p0_:
+            return n0_ / p0_ * q
+        tot = n0_
+        for (pa, na), (pb, nb) in zip(pts, pts[1:]):
+            hi = min(pb, q)
+            if hi <= pa:
+                break
+            s_ = (nb - na) / (pb - pa)
+            tot += s_ * (hi - pa) + (na - s_ * pa) * math.log(hi / pa)
+        return tot
+    pe = [0.25, 0.5, 1.0, 2.0, 5.0, 10.0, 20.0, 40.0, 70.0, 100.0, 200.0]
+    data = [(pe, [0.5, 0.9, 1.6, 2.6, 4.2, 5.1, 5.0, 4.7, 4.3, 4.0, 3.4]), (pe, [0.45, 0.8, 1.45, 2.4, 3.9, 4.8, 5.3, 5.6, 5.8, 5.9, 6.0])]
+    exc = [pygaps.PointIsotherm(pressure=pp, loading=ll, material='m', adsorbate=f'pgv_gas{i}', temperature=300, pressure_mode='absolute', pressure_unit='bar',
+                                loading_basis='molar', loading_unit='mmol', material_basis='mass', material_unit='g', temperature_unit='K') for i, (pp, ll) in enumerate(data)]
+    for pq in ([8.0, 4.0], [12.0, 6.0], [1.0, 1.0]):
+        name = f"point_isotherms|loading_through_a_maximum|p={pq}"
+        try:
+            res = numpy.asarray(pgi.iast_point(exc, pq, warningoff=True), dtype=float)
+            x = res / res.sum()
+            p0 = numpy.asarray(pq) / x
+            pis = [closed(list(zip(*data[i])), float(p0[i])) for i in range(2)]
+            ok = bool(numpy.isclose(pis[0], pis[1], rtol=1e-5))
+            yield {'name': name, 'ok': ok, 'detail': '' if ok else f"spreading pressures of the measured points at p_i/x_i = {p0}: {pis}"}
+        except Exception as exc_:
+            yield {'name': name, 'ok': type(exc_).__name__ == 'CalculationError', 'detail': f"{type(exc_).__name__}: {exc_}"[:200]}
     # two branches: the desorption branch lies on another curve and is stored from high to low pressure
     up = numpy.concatenate([numpy.linspace(0.02, 1, 20), numpy.linspace(1.5, 12, 22)])
 
